@@ -1310,8 +1310,17 @@ fn evalop_covered(op: &Operation, dep_types: &[Type]) -> bool {
         | Operation::ArrayToVector
         | Operation::VectorToArray
         | Operation::Gather(_)
-        | Operation::InversePermutation => true,
-        Operation::Reshape(nt) => is_flat(nt) && dep_types.len() == 1 && is_flat(&dep_types[0]),
+        | Operation::InversePermutation
+        | Operation::ApplyPermutation(_)
+        | Operation::CreateTuple
+        | Operation::CreateNamedTuple(_)
+        | Operation::CreateVector(_)
+        | Operation::TupleGet(_)
+        | Operation::NamedTupleGet(_)
+        | Operation::VectorGet
+        | Operation::Zip
+        | Operation::Repeat(_) => true,
+        Operation::Reshape(_) => dep_types.len() == 1,
         _ => false,
     }
 }
@@ -1335,6 +1344,10 @@ impl Ev {
             Ok(ts) => ts,
             Err(_) => return,
         };
+        // Reshape between compound types has its own budget (flat reshapes would exhaust it first)
+        let compound = matches!(op, Operation::Reshape(nt) if !is_flat(nt) || dep_types.iter().any(|dt| !is_flat(dt)));
+        let budget_name = if compound { format!("{}(compound)", name) } else { name.to_owned() };
+        let name = budget_name.as_str();
         if dep_types.len() != deps.len() || !evalop_covered(op, &dep_types) || !evalop_has_budget(name) {
             return;
         }
@@ -1724,12 +1737,106 @@ fn stream_slices(run: &mut Run) {
 }
 
 pub fn corr(run: &mut Run) {
-    run.rule = "P: type-directed random programs (contexts with 0-3 finalized callee graphs + main graph, 6-19 steps; ~78% candidates built to fit the pool's types, ~22% malformed: arbitrary argument nodes, out-of-range axes, wrong ranks, mismatched scalar types, zero / empty / oversized dims, wrong dependency counts); each candidate is a model request `infer <op> <arg types>` answered by Graph::add_node + get_type; non-trivial = any candidate other than Input. Oracle: each finished program is evaluated twice node by node (SimpleEvaluator::evaluate_node, nested Call/Iterate) with check_type of every value. F: custom-op / join / sort / call families instantiated and evaluated the same way. S: slice_index on every result index of random slices.".to_owned();
+    run.rule = "P: type-directed random programs (contexts with 0-3 finalized callee graphs + main graph, 6-19 steps; ~78% candidates built to fit the pool's types, ~22% malformed: arbitrary argument nodes, out-of-range axes, wrong ranks, mismatched scalar types, zero / empty / oversized dims, wrong dependency counts); each candidate is a model request `infer <op> <arg types>` answered by Graph::add_node + get_type; non-trivial = any candidate other than Input. Oracle: each finished program is evaluated twice node by node (SimpleEvaluator::evaluate_node, nested Call/Iterate) with check_type of every value. F: custom-op / join / sort / call families instantiated and evaluated the same way. S: slice_index on every result index of random slices. E: every evaluated node of the 32 operations covered by the model's one-node evaluator (arithmetic, matrix products, structural ops, Stack/Concatenate/B2A, GetSlice, Reshape incl. compound types with a budget of their own, tuple / named-tuple / vector constructors and accessors, VectorGet with its run-time error, Zip, Repeat, ApplyPermutation) is replayed as `evalop <op> <dep types> <dep values>` and must give exactly the evaluator's value or error (per-operation cap).".to_owned();
     evalop_reset(run.tier.scale(320, 3200) as u64);
     stream_programs(run);
     stream_families(run);
     stream_slices(run);
     stream_graph_api(run);
+    stream_after_refusal(run);
+}
+
+/// R: soundness must survive a REFUSED node. Nodes are refused after their type was inferred when a size
+/// budget is exceeded (per node, or the context-wide budget for inputs and constants — here used up by
+/// another, never evaluated graph of the same context). The program carries on; the next nodes must get
+/// exactly the type a fresh context infers for them, ill-fitting operations must still be rejected, and
+/// the value of the graph must have the inferred type.
+fn stream_after_refusal(run: &mut Run) {
+    let mut rng = run.rng("after-refusal");
+    let n = run.tier.scale(24, 200);
+    for it in 0..n {
+        let named = it % 4 == 3;
+        let budget_hog_first = it % 2 == 0;
+        let refused_kind = (it / 2) % 3;
+        let r = catch(|| -> ciphercore_base::errors::Result<Option<String>> {
+            let big = array_type(vec![1 << 63], BIT);
+            let c = create_context()?;
+            let g = c.create_graph()?;
+            let x = g.input(array_type(vec![2, 3], INT32))?;
+            if named {
+                x.set_name("x")?;
+            }
+            let hog = |c: &Context| -> ciphercore_base::errors::Result<()> {
+                let side = c.create_graph()?;
+                side.input(array_type(vec![1 << 63], BIT))?.set_as_output()?;
+                side.finalize()?;
+                Ok(())
+            };
+            if budget_hog_first {
+                hog(&c)?;
+            }
+            // refused nodes (each may also be accepted, depending on the budget: both are fine)
+            let refused = match refused_kind {
+                0 => g.input(big.clone()).is_err(),
+                1 => g.input(array_type(vec![1 << 62, 4], UINT64)).is_err(),
+                _ => g.constant(big.clone(), Value::from_bytes(vec![])).is_err(),
+            };
+            if !budget_hog_first {
+                let _ = hog(&c);
+            }
+            // carry on: the same three nodes in this context and in a fresh one
+            let fresh = create_context()?;
+            let fg = fresh.create_graph()?;
+            let fx = fg.input(array_type(vec![2, 3], INT32))?;
+            let a = x.get(vec![0]);
+            let fa = fx.get(vec![0]);
+            match (&a, &fa) {
+                (Ok(a), Ok(fa)) => {
+                    if a.get_type()? != fa.get_type()? {
+                        return Ok(Some(format!("x.get([0]) of an i32[2,3] input gets type {:?} after a refused node (refused: {}), a fresh context infers {:?}", a.get_type()?, refused, fa.get_type()?)));
+                    }
+                }
+                (Err(_), Ok(_)) | (Ok(_), Err(_)) => return Ok(Some(format!("x.get([0]) accepted: {} after a refused node, {} in a fresh context", a.is_ok(), fa.is_ok()))),
+                _ => {}
+            }
+            let m = x.matmul(x.clone());
+            if m.is_ok() {
+                return Ok(Some(format!("matmul of i32[2,3] by i32[2,3] is accepted after a refused node (refused: {})", refused)));
+            }
+            let s1 = x.add(x.clone())?;
+            let s2 = rng_free_sum(&s1)?;
+            let fs = fx.add(fx.clone())?.sum(vec![0])?;
+            if s2.get_type()? != fs.get_type()? {
+                return Ok(Some(format!("(x+x).sum([0]) gets type {:?} after a refused node, a fresh context infers {:?}", s2.get_type()?, fs.get_type()?)));
+            }
+            // value of the graph has the inferred type
+            s2.set_as_output()?;
+            g.finalize()?;
+            g.set_as_main()?;
+            c.finalize()?;
+            let mut ev = SimpleEvaluator::new(None)?;
+            ev.preprocess(&c)?;
+            let v = ev.evaluate_graph(g.clone(), vec![Value::from_flattened_array(&[1, 2, 3, 4, 5, 6], INT32)?])?;
+            if !v.check_type(s2.get_type()?)? {
+                return Ok(Some("the value of (x+x).sum([0]) does not have the node's inferred type after a refused node".to_owned()));
+            }
+            Ok(None)
+        });
+        let descr = format!("after-refusal variant named={} hog-first={} refused-kind={}", named, budget_hog_first, refused_kind);
+        run.oracle_case(&descr, true);
+        run.count("after-refusal:cases");
+        match r {
+            Ok(Ok(None)) => {}
+            Ok(Ok(Some(why))) => run.oracle_fail("C09:unsound-after-refused-node", format!("{} : {}", descr, why)),
+            Ok(Err(e)) => run.count(&format!("after-refusal:err:{}", trunc(&format!("{}", e), 40))),
+            Err(p) => run.oracle_fail("C09:panic:after-refusal", format!("{} : {}", descr, p)),
+        }
+        let _ = &mut rng;
+    }
+}
+
+fn rng_free_sum(n: &Node) -> ciphercore_base::errors::Result<Node> {
+    n.sum(vec![0])
 }
 
 /// G: the graph-level entry point (`Evaluator::evaluate_graph`, which `random_evaluate` and every
